@@ -82,9 +82,10 @@ CHECKS = {
     "C09": _c(
         "other",
         "Proved for all inputs: each of the six per-step cost functions returns the stated formula over the merged legs and satisfies the sieve lemma result >= max(iscore, jscore) "
-        "(which is what makes the doubling cost-cap sieve unable to drop the optimum). Bounded: optimize_optimal against exhaustive enumeration of all (2n-3)!! trees with an "
-        "independent cost function.",
-        "The DP's global induction over subsets is not attempted deductively.",
+        "(which is what makes the doubling cost-cap sieve unable to drop the optimum); the inductive step of the dynamic programme as an iteration contract on the candidate-pair "
+        "loop of optimize_optimal_connected (every pair is overlapping, a skipped outer product, at or over the cap, or leaves a table entry at most its cost; the table only improves). "
+        "Bounded: optimize_optimal against exhaustive enumeration of all (2n-3)!! trees with an independent cost function.",
+        "The DP's global induction over subsets and the enumeration of candidate pairs are not mechanised; bit masks are uninterpreted in the step contract.",
     ),
     "C10": _c(
         "other",
